@@ -36,6 +36,19 @@ def setup_sps(u, mode="SEQ"):
         return l
 
     it.hooks["start_server"] = start_server
+    # the set of ports already tried: its name is read from the real function (`<name> = set()` before the retry loop)
+    import ast as _ast
+
+    fn, _ = u.cls(SERVER, "Server").lookup("_start_passive_server")
+    sets = [n.targets[0].id for n in _ast.walk(fn.node) if isinstance(n, _ast.Assign) and isinstance(n.value, _ast.Call) and _ast.unparse(n.value) == "set()" and isinstance(n.targets[0], _ast.Name)]
+    if len(sets) != 1:
+        from pyvc.core import Unsupported
+
+        raise Unsupported("Server._start_passive_server: expected one `<name> = set()` (ports already tried)")
+    sess.viewed_name = sets[0]
+    spec = it.hooks.get("loops", {}).get((SERVER, "Server._start_passive_server", 0))
+    if spec is not None:
+        spec.shapes = {sets[0]: lambda it_: SymIntSet.fresh("viewed")}
     f = it.getattr_(sess.server, "_start_passive_server")
     vars = {"self": sess.server, "connection": sess.conn, "sess": sess}
     return f, [sess.conn, cb], {}, vars
@@ -78,7 +91,7 @@ def havoc_pool(it, env):
     sess = it.ctx.unit_state.vars["sess"]
     sess.arbitrary_state(fields=[])
     # loop-head snapshot for the termination step (ghost)
-    vp = env.lookup("viewed_ports")
+    vp = env.lookup(getattr(sess, "viewed_name", "viewed_ports"))
     sess.retry_head = {"viewed": vp.arr, "rest": sess.ghost.get("pool_rest"), "ev": len(it.ctx.events)}
 
 
@@ -101,7 +114,7 @@ def retry_ghost(it, env, phase):
     port = as_int(got[0][1])
     # instance of the ghost's definition: rest = configured - (ports held by other sessions), holdings are >= 0
     it.ctx.assume(head["rest"][port] <= CONF[port])
-    now = env.lookup("viewed_ports").arr
+    now = env.lookup(getattr(sess, "viewed_name", "viewed_ports")).arr
     f = z3.And(z3.Not(head["viewed"][port]), now == z3.Store(head["viewed"], port, z3.BoolVal(True)), CONF[port] >= 1)
     it.ctx.check("Server._start_passive_server/iteration:each-retry-views-a-configured-port-not-viewed-before", f, info={"props": ["C11"]})
 
